@@ -33,7 +33,7 @@ def main(argv):
     nosuite = '--nosuite' in argv
     ns = [a for a in argv[2:] if not a.startswith('--')]
     wt = '/tmp/seed/' + prop
-    rnd = "4" if "--round4" in argv else ("3" if "--round3" in argv else ("2" if "--round2" in argv else ""))
+    rnd = next((a[len('--round'):] for a in argv if a.startswith('--round')), "")
     r2 = bool(rnd)
     out = '/tmp/seedout%s/%s' % (rnd, prop)
     if not ns:
